@@ -39,11 +39,11 @@ def own_event(label, raw, tail):
     return e
 
 
-def foreign_event(label, raw, tail):
+def foreign_event(label, raw, tail, wellformed=False):
     import_pgpy()
     from pgpy.packet import Packet
     buf = bytearray(raw + tail)
-    e = {'k': 'foreign', 'label': label, 'f': octets(raw), 'tail': octets(tail)}
+    e = {'k': 'foreign', 'label': label, 'f': octets(raw), 'tail': octets(tail), 'wellformed': wellformed}
     with warnings.catch_warnings():
         warnings.simplefilter('ignore')
         try:
@@ -213,10 +213,12 @@ def header_variants(tag, body, rng, quick):
 def foreign_events(ctx):
     ev = []
     corpus = []
+    fixture_names = set()
     for f in sorted(glob.glob('/repo/tests/testdata/packets/*')):
         raw = open(f, 'rb').read()
         tag, body, r = build.read_packets(raw)[0]
         corpus.append((os.path.basename(f), tag, body))
+        fixture_names.add(os.path.basename(f))
     # builder-made packets
     fk = build.ForeignKey('rsa2048')
     ek = build.ForeignKey('ed25519')
@@ -275,7 +277,7 @@ def foreign_events(ctx):
             continue
         for vname, raw in header_variants(tag, body, ctx.rng, ctx.quick):
             tail = b'' if 'indeterminate' in vname else TAILS[(len(raw) + tag) % len(TAILS)]
-            ev.append(foreign_event('%s / %s' % (name, vname), raw, tail))
+            ev.append(foreign_event('%s / %s' % (name, vname), raw, tail, wellformed=(name in fixture_names or name.startswith('foreign '))))
     return ev
 
 
